@@ -284,6 +284,31 @@ def g_mm_pair(rng):
     return {"self": a, "other": b}
 
 
+def mon_sm_eq(args):
+    x, o = args["self"], args["other"]
+    r = x.__eq__(o)
+    want = isinstance(o, SourceMapping) and type(o) is type(x) and (o.line, o.column) == (x.line, x.column)
+    if isinstance(x, MacroSourceMapping):
+        return None  # MacroSourceMapping.__eq__ has its own contract
+    return None if r is want else f"__eq__ returned {r!r}, same class and position is {want!r}"
+
+
+def g_sm_pair(rng):
+    a = g_mapping(rng)
+    k = rng.randint(0, 5)
+    if k == 0:
+        return {"self": a, "other": a}
+    if k == 1:
+        return {"self": a, "other": SourceMapping(a.line, a.column)}
+    if k == 2:
+        return {"self": a, "other": SourceMapping(a.line + 1, a.column)}
+    if k == 3:
+        return {"self": a, "other": SourceMapping(a.line, a.column + 1)}
+    if k == 4:
+        return {"self": a, "other": MacroSourceMapping(None, "m", a.line, a.column, None, None, {})}
+    return {"self": a, "other": rng.choice([None, 1, [a.line, a.column]])}
+
+
 NATIVE = {
     SM + ":SourceMapPositionMark.serialize": {"gen": lambda r: {"self": g_pm(r)}, "monitor": mon_leaf_serialize(SourceMapPositionMark, PM_FIELDS), "repr": rep_map},
     SM + ":SourceMapPositionMark.deserialize": {"gen": lambda r: {"data_list": pm_view(g_pm(r))}, "monitor": mon_leaf_deserialize(SourceMapPositionMark, PM_FIELDS), "repr": rep_map},
@@ -296,4 +321,5 @@ NATIVE = {
     SM + ":SourceMapPositionMark.__eq__": {"gen": g_pm_pair, "monitor": mon_pm_eq, "repr": rep_map},
     SM + ":SourceMapBuilder.add_macro_position_mark": {"gen": lambda r: {"n_before": r.randint(0, 3), "if_incl_rel_path": r.choice([None, "a.exps"]), "macro_name": g_str(r), "position_mark": g_pm(r)}, "monitor": mon_add_macro_pm, "repr": rep_map},
     SM + ":MacroSourceMapping.__eq__": {"gen": g_mm_pair, "monitor": mon_mm_eq, "repr": rep_map},
+    SM + ":SourceMapping.__eq__": {"gen": g_sm_pair, "monitor": mon_sm_eq, "repr": rep_map},
 }
